@@ -81,7 +81,8 @@ fn run_case(dir: &Path, c: &Case) -> Result<Vec<&'static str>, (String, String)>
         Err(StartError::Harness(e)) => return Err(("harness".into(), e)),
     };
     let n = parsed.unwrap() as usize;
-    let quiet = Duration::from_millis(60);
+    // copies are 1 ms apart; a generous quiet period so that a loaded machine cannot split a run
+    let quiet = Duration::from_millis(300);
     let opts: Vec<(String, String)> = if c.with_options { vec![("blksize".into(), "1024".into())] } else { vec![] };
     // ---- download
     let cl = Client::new();
